@@ -21,7 +21,7 @@ assert os.path.realpath(sm.__file__).startswith(os.path.realpath(REPO_SRC)), sm.
 class Real:
     """the real objects of a description"""
 
-    def __init__(self, net, pv, names=None, sym_params=None):
+    def __init__(self, net, pv, names=None, sym_params=None, reads=None):
         """pv: numeric parameter values keyed by model token; sym_params: set of tokens to be
         replaced by the given symbols {token: symbol}."""
         self.desc = net
@@ -62,6 +62,8 @@ class Real:
             self.dests[d] = Destination(name=nm) if k == "free" else CongestedDestination(name=nm)
         self.net = Network()
         for op in net.ops:
+            if reads is not None and reads.random() < 0.5:
+                self.touch()
             if op[0] == "node":
                 self.net.add_node(self.node(op[1], names))
             elif op[0] == "link":
@@ -72,6 +74,19 @@ class Real:
                 self.net.add_destination(self.dests[op[1]], self.node(op[2], names))
         self.pv = pv
         self.sp = sp
+
+    def touch(self):
+        """read every cached look-up (and validate) in the middle of the construction: a later
+        construction call must not leave any of them stale"""
+        n = self.net
+        for attr in ("nodes_by_name", "links_by_name", "nodes_by_link", "origins", "origins_by_name",
+                     "origins_by_node", "destinations", "destinations_by_name", "destinations_by_node"):
+            getattr(n, attr)
+        list(n.elements)
+        try:
+            n.is_valid()
+        except Exception:
+            pass
 
     def node(self, n, names):
         if n not in self.nodes:
